@@ -84,7 +84,6 @@ package dhcpd
 //@ package-callsite fieldcall:github.com/AdguardTeam/AdGuardHome/internal/dhcpd.ServerConfig.ConfigModified() requires nolocks()
 //@ sweep C05 fieldcall:github.com/AdguardTeam/AdGuardHome/internal/dhcpd.ServerConfig.ConfigModified
 
-
 // ---- C10: the DHCPv4 lease table: one lease per address, indexes and bit set in step ----
 // bits[bkey(b, n)] is bit n of bit set b (the bit-twiddling bodies of set/isSet are trusted against this view).
 //@ ghost var bits map[int]bool
